@@ -348,7 +348,7 @@ def run(ctx):
     rng = ctx.rng
     orig = svs_sync.secrets.randbits
     try:
-        for i in range(ctx.n(700, 40000)):
+        for i in range(ctx.n(700, 300000)):
             hist = gen_history(rng)
             R, S = execute(ctx, hist, rng)
             for v in R['viol']:
